@@ -1,3 +1,3 @@
 #!/bin/sh
 # builds the harness against /repo (developer convenience; ./check does the same)
-cd /verif/harness && export GOFLAGS=-mod=mod GOPROXY=off GOSUMDB=off GOTOOLCHAIN=local CGO_ENABLED=0 && gofmt -l . ; go build -tags verif -o bin/harness . 2>&1 | head -40
+cd /verif/harness && export GOFLAGS=-mod=mod GOPROXY=off GOSUMDB=off GOTOOLCHAIN=local CGO_ENABLED=0 && gofmt -w . ; go build -tags verif -o bin/harness . 2>&1 | head -40
